@@ -106,6 +106,23 @@ func NPMRange(r *rand.Rand) string {
 	return strings.Join(alts, Pick(r, " || ", "||", " ||"))
 }
 
+// PadSpace wraps a range generator: one string in forty gets white space that
+// is not ASCII (no-break space, em space, ideographic space) at one of its
+// ends, which the ecosystems' tools trim like any other white space.
+func PadSpace(g func(*rand.Rand) string) func(*rand.Rand) string {
+	return func(r *rand.Rand) string {
+		s := g(r)
+		if r.Intn(40) != 0 {
+			return s
+		}
+		sp := Pick(r, "\u00a0", "\u2003", "\u3000", "\u00a0 ")
+		if r.Intn(2) == 0 {
+			return sp + s
+		}
+		return s + sp
+	}
+}
+
 // SameLower wraps a range generator: one string in eight is an AND-pair of
 // two ranges that start at the same version, one of them written with a
 // prerelease (">=2.0.0 >=2.0.0-0", "^2 2.x-rc", "* >=0.0.0-0"), in either
